@@ -98,8 +98,85 @@ void vf_harness(void)
                 canaries=[{"fn": "KrigingSystem::_getMean", "rx": r"if \(_nfeq > 0 && ! _flagBayes\) return 0\.;", "rp": "if (_nfeq > 1 && ! _flagBayes) return 0.;", "expect": r"assertion"}])
 
 
+def unit_rhs_drift():
+    """the universality rows of the right-hand side: drift functions of the TARGET, in the rows the LHS uses for the same drift functions"""
+    pre = BOOL + """
+#define SAMED(x, y) ((x) == (y) || ((x) != (x) && (y) != (y)))
+#define NE 2
+#define NV 2
+#define NB 2
+#define NEQF (NE * NV + NB)
+int _nech, _nvar, _nvarCL, _nfeq, _nbfl, _iechOut; bool _flagNoMatLC; double RF[NEQF][NV]; int g_cov_part;
+#define IND(iech, ivar)   ((iech) + (ivar) * _nech)
+#define E_POINT 0
+#define E_BLOCK 1
+#define E_DRIFT 2
+#define E_DGM 3
+static void _rhsCalculPoint(void) { g_cov_part++; } static void _rhsCalculBlock(void) { g_cov_part++; } static void _rhsCalculDrift(void) { g_cov_part++; } static void _rhsCalculDGM(void) { g_cov_part++; }
+double __CPROVER_uninterpreted_driftT(int, int, int);      /* Model::evalDriftValue(dbout, target rank, variable, drift index, RHS) */
+double __CPROVER_uninterpreted_matLC(int, int);
+static double VF_evalDriftTarget(int rank, int ivar, int ib) { return __CPROVER_uninterpreted_driftT(rank, ivar, ib); }
+static double VF_matLC(int i, int j) { return __CPROVER_uninterpreted_matLC(i, j); }
+double __CPROVER_uninterpreted_mulLC(double, int, int);     /* value * matLC(i, j) */
+static double VF_mulLC(double v, int i, int j) { return __CPROVER_uninterpreted_mulLC(v, i, j); }
+static bool FFFF(double v) { return v > 1.0e30 || v != v; }
+"""
+    fns = [Fn("KrigingSystem::_setRHSF", KS, r"^void KrigingSystem::_setRHSF\(int iech, int ivar, int jvCL, double value\)\s*$", csig="void _setRHSF(int iech, int ivar, int jvCL, double value)",
+              rewrites=[(r"_rhsf\.setValue\(ind, jvCL, value, false\);", "RF[ind][jvCL] = value;", 1)]),
+           Fn("KrigingSystem::_rhsCalcul", KS, r"^int KrigingSystem::_rhsCalcul\(\)\s*$", csig="int KrigingSystem_rhsCalcul(void)",
+              rewrites=[(r"_p0\.setIech\(_iechOut\);", ";", "opt"), (r"_p0\.setTarget\(true\);", ";", "opt"), (r"_dbout->getSampleAsSPInPlace\(_p0\);", ";", "opt"),
+                        (r"_calcul\.toEnum\(\)", "W_calcul", 1), (r"EKrigOpt::E_(\w+)", r"E_\1", None),
+                        (r"_model->evalDriftValue\(_dbout,\s*([^,()]+(?:\[[^\]]*\])?),\s*(\w+),\s*(\w+),\s*ECalcMember::RHS\)", r"VF_evalDriftTarget(\1, \2, \3)", None),
+                        # the product with the combination coefficient is an uninterpreted function of (drift value, coefficient indices): floating-point
+                        # product equalities do not finish on any back end; the obligation pins WHICH coefficient multiplies WHICH drift value
+                        (r"value \*= _matLC->getValue\((\w+),\s*(\w+)\);", r"value = VF_mulLC(value, \1, \2);", "opt"),
+                        (r"_matLC->getValue\(", "VF_matLC(", "opt")])]
+    h = """
+void vf_harness(void)
+{
+  vf_havoc_inputs();
+  _nech = NE; _nvar = NV; _nbfl = W_matLC ? 1 : NB; _nfeq = W_matLC ? NV * _nbfl : NB; _nvarCL = NV; _flagNoMatLC = !W_matLC; _iechOut = W_iechOut; g_cov_part = 0;
+  __CPROVER_assume(0 <= W_calcul && W_calcul <= 3);
+  for (int a = 0; a < NEQF; a++) for (int b = 0; b < NV; b++) RF[a][b] = 0.;
+  int rc = KrigingSystem_rhsCalcul();
+  __CPROVER_assert(g_cov_part == 1, "the covariance part of the right-hand side is established exactly once");
+  bool undefined = 0;
+  if (!W_matLC) { for (int iv = 0; iv < NV; iv++) for (int ib = 0; ib < NB; ib++) if (FFFF(__CPROVER_uninterpreted_driftT(_iechOut, iv, ib))) undefined = 1; }
+  else { for (int jv = 0; jv < NV; jv++) if (FFFF(__CPROVER_uninterpreted_driftT(_iechOut, jv, jv))) undefined = 1; }
+  __CPROVER_assert((rc != 0) == undefined, "failure is reported exactly when a drift function is undefined at the target");
+  if (rc == 0 && !W_matLC)
+    for (int iv = 0; iv < NV; iv++) for (int ib = 0; ib < NB; ib++)
+      __CPROVER_assert(SAMED(RF[ib + _nvar * _nech][iv], __CPROVER_uninterpreted_driftT(_iechOut, iv, ib)),
+                       "universality row ib of the right-hand side = drift function ib of variable iv AT THE TARGET (same row the left-hand side uses for that drift function)");
+  if (rc == 0 && W_matLC)
+    for (int cl = 0; cl < NV; cl++) for (int jv = 0; jv < NV; jv++)        /* one drift function per variable: ib == jv */
+      __CPROVER_assert(SAMED(RF[jv + _nvar * _nech][cl], __CPROVER_uninterpreted_mulLC(__CPROVER_uninterpreted_driftT(_iechOut, jv, jv), cl, jv)),
+                       "with a linear combination matrix: row of (variable jv, its drift function) = drift at the target times the combination coefficient");
+  VF_REACH();
+}
+"""
+    return Unit("C02.rhsCalcul.drift_rows", fns, prelude=pre, harness=h, pre_inputs=BOOL, unwind=8,
+                inputs=[("int", "W_iechOut"), ("int", "W_calcul"), ("bool", "W_matLC")],
+                checks=["--bounds-check", "--pointer-check", "--signed-overflow-check"], backends=("minisat", "cadical"), timeout=600,
+                bounded="exactly 2 neighbourhood samples, 2 variables, 2 drift equations (unwinding assertions)",
+                claim=("KrigingSystem::_rhsCalcul, drift part: whatever the calculation option, every universality row of the right-hand side holds the drift "
+                       "function of that row evaluated at the TARGET sample (times the combination coefficient when a matrix of linear combinations is given), in "
+                       "the row index the left-hand side uses for the same drift function; failure is reported exactly when a drift value is undefined"),
+                assumptions=["BOUNDED stand-in", "Model::evalDriftValue and the combination matrix are uninterpreted functions; the four covariance-part routines are stubs"],
+                canaries=[{"fn": "KrigingSystem::_rhsCalcul", "rx": r"_setRHSF\(ib,_nvar,ivar,value\);", "rp": "_setRHSF(ivar,_nvar,ib,value);", "expect": r"assertion"}])
+
+
+def unit_lhs_drift():
+    from specs import C01
+    import copy
+    u = copy.copy(C01.unit_lhs_assembly(2, 2, 2))
+    u.name = "C02.lhsCalcul.drift_rows"
+    u.claim = ("[the weights can only reproduce the drift functions if the universality rows/columns hold them at exactly the neighbourhood samples] " + u.claim)
+    return u
+
+
 def units(tier):
-    return [unit_stdv(), unit_nugget(), unit_getmean()]
+    return [unit_stdv(), unit_nugget(), unit_getmean(), unit_rhs_drift(), unit_lhs_drift()]
 
 
 META = {
@@ -108,12 +185,12 @@ META = {
                     "translation are relations between numerical solves and are not decidable with contracts here."),
     "trusted_base": ["CBMC 6.11", "libm sqrt"],
     "assumptions": [],
-    "not_covered": ["exact interpolation at data points", "weights reproducing the drift functions", "linearity in the data", "permutation / translation invariance",
+    "not_covered": ["exact interpolation at data points", "weights reproducing the drift functions (only its structural prerequisite: the universality rows of both sides)", "linearity in the data", "permutation / translation invariance",
                     "stdev^2 <= a-priori variance"],
 }
 MANIFEST = {
     "category": "other",
-    "text": "Partial: the stored standard deviation is always a non-negative non-NaN number; nugget counted at zero distance; no mean subtracted when drift equations are present.",
+    "text": "Partial: the stored standard deviation is always a non-negative non-NaN number; nugget counted at zero distance; no mean subtracted when drift equations are present; universality rows of the left- and right-hand sides hold the drift functions of exactly the neighbourhood samples / the target.",
     "note": "Relations between numerical solves (exactness, unbiasedness, linearity, invariances) are N/A for this technique.",
     "design_ref": "DESIGN.md 3 C02",
 }
